@@ -42,6 +42,7 @@ import (
 	"fmt"
 	"go/ast"
 	"go/token"
+	"go/types"
 	"math"
 	"math/big"
 	"regexp"
@@ -349,6 +350,8 @@ func checkC19(ctx *Ctx, r *Report, tier string) {
 	checkVoxelTiling(ctx, r)
 	checkDistanceCulling(ctx, r)
 	checkVertexLockBounds(ctx, r)
+	checkOneLatticeForBothPasses(ctx, r)
+	checkVoxelCornerLattice(ctx, r)
 	checkPowerOfTwo(ctx, r)
 	checkWarnOnceBlocks(ctx, r)
 	n := 0
@@ -543,10 +546,13 @@ func checkDCV2(ctx *Ctx, r *Report) {
 	}
 	// --- corner bit i ⇔ the SDF is negative at dcCorners[i]
 	{
+		savedCap := termCap
+		termCap = 200000
 		ev := newEval(ctx, "evaluateCached")
 		res, _ := ev.evalRoot(cin)
+		termCap = savedCap
 		t, _ := res.(*Term)
-		ok := t != nil && !ev.Exceeded
+		ok := t != nil && !ev.Exceeded && t.Op != "top"
 		detail := ""
 		if ok {
 			seenA := map[string]bool{}
@@ -559,13 +565,60 @@ func checkDCV2(ctx *Ctx, r *Report) {
 			}
 			ok = len(atoms) == 8
 			detail = fmt.Sprintf("%d sign tests", len(atoms))
+			// the sample points: per axis two coordinates, a low one and a high one a cell size apart
+			sample := func(a *Term) []*Term {
+				if a.Op == "cmp" && a.S == "<" && a.Args[1].IsZero() && a.Args[0].Op == "call" && len(a.Args[0].Args) == 2 && a.Args[0].Args[1].Op == "agg" && len(a.Args[0].Args[1].Args) == 3 {
+					return a.Args[0].Args[1].Args
+				}
+				return nil
+			}
+			var lo, hi [3]*Term
+			sizeN := ""
+			for i, p := range cin.Params {
+				if strings.Contains(strings.ToLower(p.Name()), "size") {
+					sizeN = paramName(cin, i)
+				}
+			}
+			for ax := 0; ok && ax < 3; ax++ {
+				coords := map[string]*Term{}
+				for _, a := range atoms {
+					if pt := sample(a); pt != nil {
+						coords[pt[ax].Key()] = pt[ax]
+					}
+				}
+				if len(coords) != 2 || sizeN == "" {
+					ok = false
+					detail = fmt.Sprintf("axis %s: %d distinct sample coordinates (expected a low and a high one)", axes3[ax], len(coords))
+					break
+				}
+				var cs []*Term
+				for _, c := range coords {
+					cs = append(cs, c)
+				}
+				switch {
+				case equalRat(stripConv(Sub(cs[1], cs[0])), A(sizeN+"."+axes3[ax])):
+					lo[ax], hi[ax] = cs[0], cs[1]
+				case equalRat(stripConv(Sub(cs[0], cs[1])), A(sizeN+"."+axes3[ax])):
+					lo[ax], hi[ax] = cs[1], cs[0]
+				default:
+					ok = false
+					detail = fmt.Sprintf("axis %s: the two sample coordinates are not one cell size apart", axes3[ax])
+				}
+			}
 			for c := 0; ok && c < 8; c++ {
 				// the sample point of corner c
-				want := fmt.Sprintf("agg(%s,%s,%s)", cornerCoord("X", corners[c][0]), cornerCoord("Y", corners[c][1]), cornerCoord("Z", corners[c][2]))
+				var pt [3]*Term
+				for ax := 0; ax < 3; ax++ {
+					pt[ax] = lo[ax]
+					if corners[c][ax] != 0 {
+						pt[ax] = hi[ax]
+					}
+				}
+				want := aggT(pt[0], pt[1], pt[2]).Key()
 				truth := map[string]bool{}
 				hit := 0
 				for _, a := range atoms {
-					isC := a.Op == "cmp" && a.S == "<" && a.Args[1].IsZero() && a.Args[0].Op == "call" && len(a.Args[0].Args) == 2 && a.Args[0].Args[1].Key() == want
+					isC := sample(a) != nil && a.Args[0].Args[1].Key() == want
 					truth[a.Key()] = isC
 					if isC {
 						hit++
@@ -574,13 +627,13 @@ func checkDCV2(ctx *Ctx, r *Report) {
 				g := assume(t, truth)
 				if hit != 1 || !g.IsConst() || g.C.Cmp(big.NewRat(1<<uint(c), 1)) != 0 {
 					ok = false
-					detail = fmt.Sprintf("only corner %d solid (sample at %s): result %s, expected %d", c, want, shortKey(g.Key(), 80), 1<<uint(c))
+					detail = fmt.Sprintf("only corner %d solid (sample at %s): result %s, expected %d", c, shortKey(want, 120), shortKey(g.Key(), 80), 1<<uint(c))
 				}
 			}
 		} else {
 			detail = "not a closed form"
 		}
-		r.check("K2", "dc3v2.computeCornersInside|corner-bit-means-solid", cin.Pos(), ok, "bit i of the result is set iff the distance at cellStart + dcCorners[i]·cellSize is negative; "+detail)
+		r.check("K2", "dc3v2.computeCornersInside|corner-bit-means-solid", cin.Pos(), ok, "bit i of the result is set iff the distance at the cell's corner dcCorners[i] (low/high coordinate per axis, a cell size apart) is negative; "+detail)
 	}
 	// --- emissions
 	ev := newEval(ctx, "computeCornersInside", "Degenerate")
@@ -1123,7 +1176,7 @@ func checkVoxelTiling(ctx *Ctx, r *Report) {
 		r.undecided("K8", "placeVertices", es[0].Pos, "placeVertex is not called with (start, centre, size) vectors")
 		return
 	}
-	start, centre, size := vecs[0], vecs[1], vecs[2]
+	start, centre, size := vecs[len(vecs)-3], vecs[len(vecs)-2], vecs[len(vecs)-1]
 	cells := paramName(fn, 2)
 	ok, detail := true, ""
 	for i, ax := range []string{"X", "Y", "Z"} {
@@ -1168,6 +1221,22 @@ func checkVoxelTiling(ctx *Ctx, r *Report) {
 		if !equalRat(centre[i], Add(start[i], Mul(KR(big.NewRat(1, 2)), size[i]))) {
 			ok = false
 			detail += fmt.Sprintf(" axis %s: centre is not start + size/2;", ax)
+		}
+		// every cell of the axis is visited: the running index is bounded by `cells` itself
+		mu := idx[ik].Args[0]
+		bound := ""
+		for _, c := range conjuncts(es[0].Cond) {
+			g := c
+			if g.Op == "not" {
+				continue
+			}
+			if g.Op == "cmp" && len(g.Args) == 2 && g.Args[0].Key() == mu.Key() && (g.S == "<" || g.S == "<=") {
+				bound = g.S + " " + g.Args[1].Key()
+			}
+		}
+		if bound != "< "+cells+"."+ax {
+			ok = false
+			detail += fmt.Sprintf(" axis %s: the cell index runs while it is %q, expected \"< %s.%s\" (every cell, the outermost layer included: a surface within one cell of the far faces has its vertices there);", ax, bound, cells, ax)
 		}
 	}
 	r.check("K8", "placeVertices|cells-tile-the-box", es[0].Pos, ok, "Min + cells·cellSize ≡ Max, starts advance by cellSize, centre = start + size/2 on every axis;"+detail)
@@ -1601,4 +1670,191 @@ func checkVertexLockBounds(ctx *Ctx, r *Report) {
 	}
 	r.check("K12", key, fn.Pos(), bad == "", fmt.Sprintf("%d bounds compared as rational identities with the world image of the node's lattice cell;%s", nB, bad))
 	r.floor("K12", 1)
+}
+
+// checkOneLatticeForBothPasses (K13): the voxel renderer places vertices on the lattice of the
+// padded box (its shape wrapper enlarges Max by 1e-12) and then stitches them by sampling the
+// corners of each voxel again. Both passes must sample the same lattice: a corner recomputed from
+// the shape's raw box differs from the placement pass's corner by the padding, and a face lying
+// exactly on a grid plane is seen from one side only. Decided by a backward slice from the
+// position arguments of every computeCornersInside call (through arithmetic, phis, parameters
+// and their call sites): it may reach the wrapper's BoundingBox or geometry recorded on the
+// voxel, never BoundingBox invoked on the wrapped interface value.
+func checkOneLatticeForBothPasses(ctx *Ctx, r *Report) {
+	target := ctx.ssaFunc("render/dc", "(*DualContouringV2).computeCornersInside")
+	if target == nil {
+		r.undecided("K13", "computeCornersInside", 0, "not found")
+		return
+	}
+	n := 0
+	for _, ref := range refsTo(ctx, target) {
+		c, ok := ref.ins.(*ssa.Call)
+		if !ok || c.Call.StaticCallee() != target || ctx.isControlPos(c.Pos()) {
+			continue
+		}
+		n++
+		var raw []string
+		seen := map[ssa.Value]bool{}
+		var back func(v ssa.Value, fn *ssa.Function, depth int)
+		back = func(v ssa.Value, fn *ssa.Function, depth int) {
+			if v == nil || seen[v] || depth > 40 {
+				return
+			}
+			seen[v] = true
+			switch x := v.(type) {
+			case *ssa.Const, *ssa.Global, *ssa.Alloc:
+				if a, ok := x.(*ssa.Alloc); ok {
+					// a local: follow what is stored into it
+					for _, rf := range *a.Referrers() {
+						if st, ok := rf.(*ssa.Store); ok && st.Addr == ssa.Value(a) {
+							back(st.Val, fn, depth+1)
+						}
+					}
+				}
+				return
+			case *ssa.Parameter:
+				for i, p := range x.Parent().Params {
+					if p != x {
+						continue
+					}
+					for _, cr := range refsTo(ctx, x.Parent()) {
+						if cc, ok := cr.ins.(*ssa.Call); ok && cc.Call.StaticCallee() == x.Parent() && i < len(cc.Call.Args) {
+							back(cc.Call.Args[i], cr.in, depth+1)
+						}
+					}
+				}
+				return
+			case *ssa.UnOp:
+				if x.Op == token.MUL {
+					if _, isField := x.X.(*ssa.FieldAddr); isField {
+						if al, ok := x.X.(*ssa.FieldAddr).X.(*ssa.Alloc); ok {
+							back(al, fn, depth+1)
+						}
+						return // recorded on an object
+					}
+					if _, isIdx := x.X.(*ssa.IndexAddr); isIdx {
+						return
+					}
+				}
+				back(x.X, fn, depth+1)
+				return
+			case *ssa.Call:
+				if x.Call.IsInvoke() && x.Call.Method.Name() == "BoundingBox" {
+					raw = append(raw, ctx.pos(x.Pos()))
+					return
+				}
+				if g := x.Call.StaticCallee(); g != nil && g.Name() == "BoundingBox" {
+					return // the wrapper's padded box
+				}
+				for _, a := range x.Call.Args {
+					back(a, fn, depth+1)
+				}
+				return
+			}
+			if ins, ok := v.(ssa.Instruction); ok {
+				for _, op := range ins.Operands(nil) {
+					if *op != nil {
+						back(*op, fn, depth+1)
+					}
+				}
+			}
+		}
+		for _, a := range c.Call.Args[2:] {
+			back(a, ref.in, 0)
+		}
+		sort.Strings(raw)
+		r.check("K13", fmt.Sprintf("%s|corner-positions#%d-come-from-the-placement-lattice", shortFn(ref.in), n), c.Pos(), len(raw) == 0,
+			"the corner positions sampled here derive from the wrapper's padded box or from geometry recorded per voxel; raw BoundingBox() of the wrapped shape reached at: "+strings.Join(raw, ", "))
+	}
+	r.floor("K13", 2)
+}
+
+// checkVoxelCornerLattice (K14): K6 for the voxel renderer. A lattice corner is shared by up to
+// eight voxels; each decides the corner's sign from its own evaluation there, and the quads
+// close only if all of them evaluate at bit-identical coordinates. (Min + size·i) + size and
+// Min + size·(i+1) differ by an ulp every few cells: a flat face lying between the two values
+// is inside for one voxel and outside for its neighbour. Decided on float-faithful terms of the
+// eight corner evaluations of computeCornersInside: each coordinate is one function F of
+// float(voxel index + corner offset), the sum taken in integers.
+func checkVoxelCornerLattice(ctx *Ctx, r *Report) {
+	fn := ctx.ssaFunc("render/dc", "(*DualContouringV2).computeCornersInside")
+	key := "computeCornersInside|corner-positions-are-one-function-of-the-integer-lattice-index"
+	if fn == nil {
+		r.undecided("K14", key, 0, "not found")
+		return
+	}
+	ev := newEval(ctx, "evaluateCached")
+	ev.faithful = true
+	ev.evalRoot(fn)
+	corners := eventsOf(ev, ".evaluateCached")
+	if len(corners) < 8 || ev.Exceeded {
+		r.check("K14", key, fn.Pos(), false, fmt.Sprintf("%d corner evaluations found on the unrolled corner loop (expected 8)", len(corners)))
+		return
+	}
+	corners = corners[:8]
+	// the voxel's integer index: a parameter that is a vector of integers
+	idxN := ""
+	for i, p := range fn.Params {
+		if st, ok := p.Type().Underlying().(*types.Struct); ok && st.NumFields() == 3 {
+			if b, ok := st.Field(0).Type().Underlying().(*types.Basic); ok && b.Info()&types.IsInteger != 0 {
+				idxN = paramName(fn, i)
+			}
+		}
+	}
+	if idxN == "" {
+		r.check("K14", key, fn.Pos(), false, "the corner positions are assembled in floating point from the voxel's origin (no integer voxel index reaches computeCornersInside): voxel i computes its far corners as (Min + size·i) + size, voxel i+1 the same corners as Min + size·(i+1)")
+		r.floor("K14", 1)
+		return
+	}
+	ok := true
+	detail := ""
+	var shape0 [3]string
+	for ci, e := range corners {
+		m := map[string]*Term{}
+		if len(e.Args) > 0 {
+			leafTerms("", e.Args[len(e.Args)-1], m)
+		}
+		for ai, ax := range []string{"X", "Y", "Z"} {
+			t := m["."+ax]
+			if t == nil {
+				ok = false
+				detail += fmt.Sprintf(" corner %d: position is not a closed form;", ci)
+				continue
+			}
+			atom := idxN + "." + ax
+			nInt := 0
+			shape := rebuildRaw(t, func(x *Term) *Term {
+				if x.Op == "conv" && strings.HasPrefix(x.S, "float") {
+					as := map[string]bool{}
+					x.Atoms(as)
+					if as[atom] {
+						if hasFloatOp(x.Args[0]) {
+							return nil
+						}
+						nInt++
+						return A("□")
+					}
+				}
+				return nil
+			})
+			as := map[string]bool{}
+			shape.Atoms(as)
+			if as[atom] || nInt == 0 {
+				ok = false
+				detail += fmt.Sprintf(" corner %d axis %s: the voxel index enters the position outside an integer lattice index (%s);", ci, ax, shortKey(t.Key(), 140))
+				continue
+			}
+			if ci == 0 {
+				shape0[ai] = shape.Key()
+			} else if shape.Key() != shape0[ai] {
+				ok = false
+				detail += fmt.Sprintf(" corner %d axis %s is computed by a different sequence of operations than corner 0;", ci, ax)
+			}
+		}
+	}
+	if len(detail) > 700 {
+		detail = detail[:700] + "…"
+	}
+	r.check("K14", key, fn.Pos(), ok, "every corner sample position is F(float(voxel index + corner offset)) with one F: neighbouring voxels evaluate shared corners at identical coordinates;"+detail)
+	r.floor("K14", 1)
 }
